@@ -283,7 +283,7 @@ def call_contract(self, fc, recv, args, kwargs, line, label):
         self.apply_interference(line, "after " + label)         # after a release other processes may run
     for kind_, text_ in hooks.get(("after", label), []):
         if kind_ == "ghost":
-            self.exec_ghost(text_)
+            self.exec_ghost(text_, result=res)
         else:
             self.assume_use(text_, self.env.spec_view(old=self.entry))
     return res
